@@ -15,6 +15,7 @@ type Options struct {
 	Enums       bool // literals with {enum: @e0} (strings "ab","cd") / {enum: @e1} (integers 1,2,3); the caller registers the rules
 	OrContainer bool // rarely: `{} // {or: [{type: "object"}, {type: "string"}]}` / `[] // {or: […]}`
 	StringRules bool // string key types with regex / minLength
+	ExoticKeys  bool // property names with escapes: control characters (\u0001 \u000b \u001f), DEL, \u0041, \/, surrogate pairs, \" \\
 	ManyKeys    bool // key shortcuts in every 4th object instead of every 8th, 25 % of them with a key type of any sort
 }
 
@@ -41,9 +42,19 @@ type gen struct {
 	cur     int // index of the type whose body is generated (len(names) for the root)
 }
 
+// exoticKeyParts: escape spellings inside property names (raw schema text between the quotes).
+var exoticKeyParts = []string{`\u0001`, `\u000b`, `\u001f`, `\u007f`, `\u0041`, `\/`, `\ud83d\ude00`, `\"`, `\\`, `é`, `\n`, `\u00e9`, " ", `\udb40\udc01`}
+
 func (g *gen) key() string {
 	g.keyNo++
-	return fmt.Sprintf("k%d", g.keyNo)
+	k := fmt.Sprintf("k%d", g.keyNo)
+	if g.opts.ExoticKeys && g.r.Intn(4) == 0 {
+		k += exoticKeyParts[g.r.Intn(len(exoticKeyParts))]
+		if g.r.Intn(3) == 0 {
+			k = exoticKeyParts[g.r.Intn(len(exoticKeyParts))] + k
+		}
+	}
+	return k
 }
 
 func (g *gen) pick() string {
@@ -452,7 +463,7 @@ func repair(r *rand.Rand, g *tg.Graph) {
 	for round := 0; round < 8; round++ {
 		fixed := false
 		try := func(name string, root *tg.Node, self bool) {
-			p := Predict(g, name, root, self)
+			p := Predict(g, name, root, self, false)
 			if p.class != "OTHER" || p.src == nil || p.src.Kind != tg.KLit || r.Intn(100) < 12 {
 				return
 			}
@@ -485,4 +496,106 @@ func repair(r *rand.Rand, g *tg.Graph) {
 			return
 		}
 	}
+}
+
+// ---- dense small families (quick tier): sibling order, or-list interplay, key-shortcut diamonds ----
+
+func (g *gen) denseValue() *tg.Node {
+	pick := func() string { return g.names[g.r.Intn(len(g.names))] }
+	x := g.r.Intn(100)
+	switch {
+	case x < 50:
+		return &tg.Node{Kind: tg.KRef, Names: []string{pick()}}
+	case x < 75:
+		n := &tg.Node{Kind: tg.KRef}
+		for _, i := range g.r.Perm(len(g.names))[:2+g.r.Intn(2)] {
+			n.Names = append(n.Names, g.names[i])
+		}
+		return n
+	case x < 87:
+		return &tg.Node{Kind: tg.KRef, Names: []string{pick()}, Optional: true}
+	case x < 95:
+		return &tg.Node{Kind: tg.KArr, Items: []*tg.Node{{Kind: tg.KRef, Names: []string{pick()}}}}
+	}
+	return &tg.Node{Kind: tg.KRef, Names: []string{pick()}, Nullable: true}
+}
+
+func (g *gen) denseObject(min, max int) *tg.Node {
+	n := &tg.Node{Kind: tg.KObj}
+	for i := min + g.r.Intn(max-min+1); i > 0; i-- {
+		n.Props = append(n.Props, tg.Prop{Key: g.key(), Val: g.denseValue()})
+	}
+	return n
+}
+
+// DenseGraph: 3..4 types; bodies leaf object / alias / or-alias / object with 1..2 reference properties;
+// root = object with 2..3 reference properties. Many of these graphs are legal and cyclic, and the
+// verdict depends on how sibling references and or-list members interact.
+func DenseGraph(r *rand.Rand) *tg.Graph {
+	g := &gen{r: r}
+	n := 3 + r.Intn(2)
+	for i := 0; i < n; i++ {
+		g.names = append(g.names, fmt.Sprintf("@t%d", i))
+	}
+	out := &tg.Graph{}
+	for i := 0; i < n; i++ {
+		var b *tg.Node
+		switch x := r.Intn(100); {
+		case x < 20:
+			b = &tg.Node{Kind: tg.KObj, Props: []tg.Prop{{Key: g.key(), Val: &tg.Node{Kind: tg.KLit, Lit: "1"}}}}
+		case x < 30:
+			b = &tg.Node{Kind: tg.KRef, Names: []string{g.names[r.Intn(n)]}}
+		case x < 55:
+			b = &tg.Node{Kind: tg.KRef}
+			for _, j := range r.Perm(n)[:2] {
+				b.Names = append(b.Names, g.names[j])
+			}
+		default:
+			b = g.denseObject(1, 2)
+		}
+		out.Types = append(out.Types, tg.TypeDef{Name: g.names[i], Body: b})
+	}
+	out.Root = g.denseObject(2, 3)
+	return out
+}
+
+// KeyGraph: key shortcuts whose types are string literals, aliases and or-lists over shared targets
+// (diamonds, chains, cycles), occasionally a non-string leaf.
+func KeyGraph(r *rand.Rand) *tg.Graph {
+	g := &gen{r: r}
+	n := 3 + r.Intn(3)
+	for i := 0; i < n; i++ {
+		g.names = append(g.names, fmt.Sprintf("@t%d", i))
+	}
+	keyObj := func() *tg.Node {
+		o := &tg.Node{Kind: tg.KObj, Props: []tg.Prop{{Key: g.names[r.Intn(n)], Shortcut: true, Val: &tg.Node{Kind: tg.KLit, Lit: "1"}}}}
+		if r.Intn(3) == 0 {
+			o.Props = append(o.Props, tg.Prop{Key: g.key(), Val: &tg.Node{Kind: tg.KLit, Lit: "true"}})
+		}
+		return o
+	}
+	out := &tg.Graph{}
+	for i := 0; i < n; i++ {
+		var b *tg.Node
+		switch x := r.Intn(100); {
+		case x < 35:
+			b = &tg.Node{Kind: tg.KLit, Lit: `"x"`}
+		case x < 60:
+			b = &tg.Node{Kind: tg.KRef, Names: []string{g.names[r.Intn(n)]}}
+		case x < 88:
+			b = &tg.Node{Kind: tg.KRef}
+			for _, j := range r.Perm(n)[:2+r.Intn(2)] {
+				b.Names = append(b.Names, g.names[j])
+			}
+		case x < 92:
+			b = &tg.Node{Kind: tg.KLit, Lit: "1"}
+		case x < 95:
+			b = &tg.Node{Kind: tg.KObj}
+		default:
+			b = keyObj()
+		}
+		out.Types = append(out.Types, tg.TypeDef{Name: g.names[i], Body: b})
+	}
+	out.Root = keyObj()
+	return out
 }
